@@ -156,6 +156,7 @@ func init() {
 		Explanation: "Decides: (err-atomic) in every *Table method that writes structure or content and returns an error, no write to the receiver can be followed by a failure return (callee writes attributed to the success continuation when the callee is itself atomic); (index-adeq) an index or slice bound applied to the cells of one row is not guarded only by the cell count of a different row (rows differ in length after horizontal merges); (nil-guard) t.Grid is nil-checked before use; (copy-cover/alias) CopyTable sets every field of every struct it constructs and stores no pointer, slice or map taken from the source.",
 		NotDecided:  "the reference-grid semantics (which cell ends up where), vMerge continuation consistency, 'every cell has a paragraph'",
 		Rules: []Rule{
+			{"range-copy", "the address of a by-value range variable never reaches a function that assigns to its fields without the variable being written back (an update of a row or cell would be applied to a copy and lost)", ruleRangeCopy},
 			{"err-atomic", "validate-then-mutate on all paths (CFG reachability, write summaries)", ruleErrAtomicTable},
 			{"index-adeq", "guard row = use row", ruleIndexAdeq},
 			{"nil-guard", "Table.Grid dereferences are nil-guarded", ruleNilGuardGrid},
@@ -224,6 +225,7 @@ func init() {
 		Explanation: "Decides: (style-id) every constant or bounded-integer-pattern style id the library itself writes into w:pStyle / w:tblStyle (and every exported table-style-template constant) is a StyleID registered by style.NewStyleManager(); (part-dep) the styles part is regenerated from the registry on every successful path of serializeStyles and the regenerated numbering part depends on the document's own state; (must-update) getOrCreateNumbering registers the instance and regenerates the part on every path and the instance refers to the abstract definition selected in that call.",
 		NotDecided:  "ids in opened foreign documents; ids passed in by the caller",
 		Rules: []Rule{
+			{"registry-keeps", "nothing is ever removed from the numbering registry (ids in use cannot be enumerated by the library: list paragraphs live in nested tables, content controls, headers)", ruleRegistryKeeps},
 			{"style-id", "emitted style ids ⊆ registry (constant-set inclusion with loop/range expansion)", func(r *Run) { ruleStyleID(r, "") }},
 			{"part-dep", "regenerated parts depend on registry / replaced part", rulePartDep},
 			{"must-update", "registrations on every path", ruleMustUpdate},
@@ -304,6 +306,7 @@ func init() {
 		Explanation: "Decides: (clone-cover/map) every clone function of the template engine sets every field of every struct it constructs from the same-named source field — a field missing from a clone is content or formatting silently dropped from every rendered document; (raw-xml) header/footer substitution escapes values with an encoding/xml escaper; (closure-ret) placeholders without data stay visible.",
 		NotDecided:  "placeholder location across run boundaries (byte offsets), row expansion contents, which run's formatting a value inherits",
 		Rules: []Rule{
+			{"range-copy", "the address of a by-value range variable never reaches a function that assigns to its fields without the variable being written back (an in-place update of a table cell, row or paragraph would be applied to a copy and lost)", ruleRangeCopy},
 			{"clone-cover/map", "clone functions cover every field (object groups over access paths)", ruleCloneDocument},
 			{"raw-xml", "values spliced into header/footer XML are escaped", ruleRawXMLSplice},
 			{"closure-ret", "unknown variables stay", ruleClosureRet},
@@ -337,6 +340,7 @@ func init() {
 		Explanation: "Decides: (export-order) paragraphs and tables are emitted from one loop over Body.Elements; (export-text) every non-empty result of the run formatter contains the run's text; (export-esc) run text passes a Markdown escaper before markers are added.",
 		NotDecided:  "the export/import fixpoint as a whole",
 		Rules: []Rule{
+			{"single-line", "the text of a table cell loses its line breaks on every path; the text of a heading never passes a function that inserts line breaks (both are one-line constructs: a break splits the row / cuts the heading)", ruleSingleLine},
 			{"export-order", "emission driven by the ordered element list", ruleExportOrder},
 			{"export-esc/text", "run text escaped and emitted once", ruleExportEsc},
 			{"export-pure", "exporting never writes into the document (mutation summaries)", ruleExportPure},
